@@ -274,13 +274,14 @@ where
     let consumer = unsafe { std::ptr::read(&self.consumer) };
     let producer_mailbox = unsafe { std::ptr::read(&self.producer_mailbox) };
     let subscriptions = unsafe { std::ptr::read(&self.subscriptions) };
+    let closed = self.closed.load(Ordering::Relaxed);
     mem::forget(self);
     TopicReceiver {
       dispatcher,
       consumer,
       producer_mailbox,
       subscriptions,
-      closed: AtomicBool::new(false),
+      closed: AtomicBool::new(closed),
     }
   }
 }
